@@ -311,9 +311,69 @@ def h_encrypt(ctx):
     return obs
 
 
+def h_request_object(ctx):
+    """a real request object of the registration flow (existence check / code request) built from a configuration: the national number it
+    reports and the number its token is computed from are the phone number without its leading country code, whatever digits follow; and
+    every send of the object (a preview, then the real one, then a retry) carries all of ITS parameters, encrypted for the server"""
+    import base64, struct
+    from checks import c19
+    from ref import wa_registration_ref as R
+    from yowsup.config.v1.config import Config
+    from axolotl.ecc.curve import Curve
+    from cryptography.hazmat.primitives.ciphers.aead import AESGCM
+    import yowsup.common.http.warequest as WR
+    import yowsup.env.env_android as E
+    from yowsup.env import YowsupEnv
+    cc = ctx.choice("country_code", ["49", "1", "353"])
+    shape = ctx.choice("national_number", ["no country code digits inside", "country code digits inside", "starts with the country code digits again", "ends with the country code digits"])
+    national = {"no country code digits inside": "8887770", "country code digits inside": "888" + cc + "0077", "starts with the country code digits again": cc + "88877",
+                "ends with the country code digits": "88877" + cc}[shape]
+    kind = ctx.choice("request", ["exists", "code"])
+    with c19._Env():
+        cfg = Config(phone=cc + national, cc=cc, id=b"\x01" * 20, mcc="262", mnc="01", sim_mcc="262", sim_mnc="01")
+        if kind == "exists":
+            from yowsup.registration.existsrequest import WAExistsRequest
+            req = WAExistsRequest(cfg)
+        else:
+            from yowsup.registration.coderequest import WACodeRequest
+            req = WACodeRequest("sms", cfg)
+        server = Curve.generateKeyPair()
+        req.ENC_PUBKEY = server.getPublicKey()
+        sent = []
+        orig = WR.WARequest.sendRequest
+        WR.WARequest.sendRequest = staticmethod(lambda host, port, path, headers, params, reqType="GET", preview=False: sent.append(list(params)))
+        try:
+            want = list(req.params)
+            pd = dict((k, v) for k, v in want)
+            obs = [("the request names the national number: phone without its leading country code (%r)" % pd.get("in"), pd.get("in") == national and pd.get("cc") == cc)]
+            env = YowsupEnv.getCurrent()
+            C = type(env)
+            if hasattr(C, "_KEY"):
+                obs.append(("the token is the keyed hash of that national number", pd.get("token") == R.token(C._KEY, C._SIGNATURE, C._MD5_CLASSES, national)))
+            for nth in ("preview", "send", "retry"):
+                n0 = len(sent)
+                req.send(preview=True)
+                got = sent[n0:]
+                ok = False
+                # (a code request asks for the account's existence first: the request's own parameters travel in the last transmission)
+                if len(got) >= 1 and len(got[-1]) == 1 and got[-1][0][0] == "ENC":
+                    raw = base64.b64decode(got[-1][0][1])
+                    eph = Curve.decodePoint(bytearray(b"\x05" + raw[:32]), 0)
+                    try:
+                        pt = AESGCM(Curve.calculateAgreement(eph, server.getPrivateKey())).decrypt(b"\x00\x00\x00\x00" + struct.pack(">Q", 0), raw[32:], b"")
+                        ok = pt.decode() == R.encode_params(want) if hasattr(R, "encode_params") else pt.decode() == WR.WARequest.urlencodeParams(want)
+                    except Exception:
+                        ok = False
+                obs.append(("%s: one ENC parameter that the server decrypts to exactly this request's parameters" % nth, ok))
+                obs.append(("%s: the request object still holds its own parameters afterwards" % nth, list(req.params) == want))
+            return obs
+        finally:
+            WR.WARequest.sendRequest = orig
+
+
 def cases(tier):
     q = tier == "quick"
-    cs = [dict(name="token[L<=64]", fn=h_token, args=(64,)), dict(name="encode-int", fn=h_encode_int), dict(name="encrypt", fn=h_encrypt)]
+    cs = [dict(name="request-object[exists / code request, 3 sends]", fn=h_request_object, keep_samples=24, timeout_s=300), dict(name="token[L<=64]", fn=h_token, args=(64,)), dict(name="encode-int", fn=h_encode_int), dict(name="encrypt", fn=h_encrypt)]
     for n1, n2 in (((1, 2), (2, 1), (2, 2)) if q else ((1, 2), (2, 1), (2, 2), (3, 2), (2, 3), (3, 3), (4, 3))):
         cs.append(dict(name="token-twice[%d,%d digits]" % (n1, n2), fn=h_token_twice, args=(n1, n2)))
     cs.append(dict(name="encode-str[n=1,unicode]", fn=h_encode_str, args=(1,), weight=20, timeout_s=300, max_paths=400000))
